@@ -492,6 +492,9 @@ func (s *Live) Shrinks(try func(core.Scenario) bool) bool {
 	if limit > 0 {
 		for size := limit; size >= 1; size /= 2 {
 			for a := 0; a+size <= limit; a += size {
+				if core.ShrinkOver() {
+					return false
+				}
 				if c := s.removeRange(a, a+size); c != nil && try(c) {
 					return true
 				}
